@@ -98,6 +98,13 @@ class C02(InputProp):
         got = X.extract(tree)
         want = G.denote(doc)
         viol = []
+        # nothing visible is invented either: the documents consist of tokens and markup only, so every Text node is made of
+        # tokens and white space (markup that leaks into the text - a stray "|+", "''", "==" - shows here)
+        extra = X.TOKEN.sub("", "".join(n.caption or "" for n in tree.allchildren() if type(n).__name__ == "Text"))
+        extra = "".join(extra.split())
+        if extra:
+            viol.append({"sig": "invented-text|%s|%s" % (names[-1] if len(names) == 1 else "+".join(sorted(set(names)))[:60], variant),
+                         "msg": "[%s] the tree shows %r which is not text of the document; wikitext %r" % (lang, extra[:40], text)})
         for mm in compare(got, want):
             kind, tok, detail = mm[0], mm[1], mm[2]
             # which block the token belongs to, and whether that block ends the text
